@@ -20,6 +20,8 @@ sequence confusion (a str where a collection is declared and vice versa).
 """
 from __future__ import annotations
 
+import os
+
 import functools
 import json
 import operator
@@ -283,7 +285,12 @@ _ORDER_CLASS = {"int": "num", "bool": "num", "float": "num", "str": "str", "file
 
 def hash_safe(vspec) -> bool:
     """dict keys and set elements are mutually orderable scalars (or there is at most one):
-    pydra's hashing sorts them and refuses mixed kinds by design (C08 assumption)"""
+    pydra's hashing sorts them and refuses mixed kinds by design (C08 assumption)
+
+    No longer used as a filter: that reading was wrong (see DESIGN 10, findings F-C08 sets and
+    repo commit 0f3c8582 for mappings); kept as a classifier for the evidence counters."""
+    if os.environ.get("VERIF_HASH_SAFE_FILTER") != "1":
+        return True
     k = vspec[0]
     if k in ("set", "frozenset", "dict"):
         els = vspec[1] if k != "dict" else [a for a, _ in vspec[1]]
